@@ -28,7 +28,7 @@ EXTEND = {
                  "hand-written single patterns ($, %, quotes, backslashes, ';', leading dashes, option look-alikes, '=' and ',', line breaks, Unicode spaces, noncharacters), "
                  "syntax-relevant ASCII and wide characters as one-character patterns (quick: 51 of the 62 in lists of 12; thorough: each of the 62 alone, plus all 127 non-NUL ASCII characters in lists of 8), "
                  "ordered pairs over the 43 syntax-relevant ASCII characters in lists of 16 (quick: 48 pairs; thorough: all 1849), seeded random lists of 0-6 random patterns "
-                 "(quick 8, thorough 150; x5 under the search budget). Quick: about 50 runs; thorough: about 480. For every run the installed "
+                 "(quick 8, thorough 300; x5 under the search budget). Quick: about 50 runs; thorough: about 630. For every run the installed "
                  "/etc/systemd/system/totalmapper@.service must equal, byte for byte, the extracted model's build_service_text of exactly the command line's patterns in order, and the extracted "
                  "c17_check must accept it under both environments (clause C17.cli_unit)."),
         "explanation": ("The cli engine adds what no library-level check sees: clap's definition of --exclude (repeatable, one value each), the collection of the values in main.rs, "
@@ -51,7 +51,7 @@ EXTEND = {
         "engines": ["cli"],
         "trusted": [CLI_TRUST + " For C16 the namespace is the one of `tm-harness listing-ns` (tmpfs over /sys/devices and /dev, a file bound over /proc/bus/input/devices; the "
                     "selected 'devices' are plain files, so opening them as evdev fails at once; every child runs under `timeout 20`)."],
-        "rule": ("cli engine: namespace scenarios of the listing generator (quick 8, thorough 120; x5 under the search budget) whose exclude patterns are replaced by 1-3 patterns of which at least one "
+        "rule": ("cli engine: namespace scenarios of the listing generator (quick 8, thorough 200; x5 under the search budget) whose exclude patterns are replaced by 1-3 patterns of which at least one "
                  "is likely to match a keyboard of the scenario ('*', '*eyboard*', a keyboard's name or a prefix of it) plus device names, suffix globs and patterns with spaces/quotes/$/%; "
                  "the real binary is run as `list_keyboards`, `remap --default-layout caps-for-movement --all-keyboards --verbose --exclude P...` and `remap ... --only-if-keyboard --verbose "
                  "--exclude P... --dev-file D...`; the devices it prints as listed, '(excluded)', 'Skipping ...' and the 'Remapping N devices.' count must equal the extracted listing model's "
